@@ -1090,8 +1090,11 @@ def fam_uploads(rng, n, dist, thorough=False):
         out.append(b.scenario())
     # a server that starts reading late, with a small receive buffer: megabytes are still queued in the client when it
     # closes the data connection - they must all arrive, followed by a clean end of file (all four methods)
-    for mode, rfc in (ALL_METHODS if thorough else [rng.choice(ALL_METHODS[2:]), rng.choice(ALL_METHODS[:2])]):
-        b = S.Builder(rng, mode, rfc, type="I")
+    for j, (mode, rfc) in enumerate(ALL_METHODS if thorough else [rng.choice(ALL_METHODS[2:]), rng.choice(ALL_METHODS[:2])]):
+        # (every other one over TLS 1.3, where the server's session tickets sit unread in the client's receive queue: the
+        # end of the upload is the client's close-notify FOLLOWED by everything still queued - not a reset)
+        tls13 = (j % 2 == 1)
+        b = S.Builder(rng, mode, rfc, type="I", tls=True, resume=(j % 4 == 1), tlsver="13") if tls13 else S.Builder(rng, mode, rfc, type="I")
         b.connect(login=(b"u", b"p"))
         size = 8 << 20 if thorough else 6 << 20          # (more than the socket buffers of a loopback connection take)
         block = bytes(rng.randrange(256) for _ in range(8192))
@@ -1106,7 +1109,7 @@ def fam_uploads(rng, n, dist, thorough=False):
         b.signals(False)
         b.simple(b"NOOP", None, 200)
         b.disconnect(True)
-        dist.add("upload:late-slow-reader:%s%s" % (mode, "-rfc2428" if rfc else ""))
+        dist.add("upload:late-slow-reader:%s%s%s" % (mode, "-rfc2428" if rfc else "", ":tls13" if tls13 else ""))
         scn = b.scenario()
         scn["call_timeout"] = 40.0
         out.append(scn)
